@@ -29,26 +29,26 @@ FAULTS = [("byidentity", "ReselectCreatesNewInstance"), ("samedef", "OutputFollo
           ("earlyreturn", "NoLostBranchWakeup"), ("retirefirst", "ExactlyOneLiveBranch"),
           ("startfirst", "RetiredBranchStoppedBeforeNewStarts"), ("resume", "ReselectCreatesNewInstance"),
           ("evalslots", "RetiredBranchNeverEvaluated"), ("ignoreunmatched", "UnmatchedWithoutDefaultIsError")]
-EVENTS = {"cycle", "key", "held", "sw", "swd", "gstart", "gstarted", "gstop", "gstopped", "geval", "neval", "ret"}
+EVENTS = {"cycle", "key", "held", "req", "sw", "swd", "gstart", "gstarted", "gstop", "gstopped", "geval", "neval", "ret"}
 KEY_ID, HELD_ID, HELD2_ID, SWITCH_ID, REC_ID = 1, 2, 5, 3, 4
 
 
 # ------------------------------------------------------------------------------------------------ models
 def models_start(quick):
     """Exhaustive run(s) + named faults, at most 4 TLC workers in total: one lane for the exhaustive model (2 workers),
-    one lane for the fault configurations one after the other (1 worker each; TLC stops at the first violation)."""
-    ex = ThreadPoolExecutor(max_workers=2)
+    two lanes for the fault configurations one after the other (1 worker each; TLC stops at the first violation)."""
+    ex = ThreadPoolExecutor(max_workers=3)
     full = [("SwitchNode.none.cfg", "SwitchNode-exhaustive")] if quick else \
            [("SwitchNode.thorough.cfg", "SwitchNode-exhaustive"), ("SwitchNode.shared.cfg", "SwitchNode-exhaustive:shared-default")]
 
     def lane_full():
         return [(label, None, hg.tlc(MODULE, cfg, workers=2, timeout=3000, metatag="switchB")) for cfg, label in full]
 
-    def lane_faults():
+    def lane_faults(part):
         return [("SwitchNode-fault:" + f, inv, hg.expect_violation(MODULE, "SwitchNode.%s.cfg" % f, inv, workers=1, timeout=1800,
-                                                                   metatag="switchB-" + f)) for f, inv in FAULTS]
+                                                                   metatag="switchB-" + f)) for f, inv in part]
 
-    return ex, [ex.submit(lane_full), ex.submit(lane_faults)]
+    return ex, [ex.submit(lane_full), ex.submit(lane_faults, FAULTS[0::2]), ex.submit(lane_faults, FAULTS[1::2])]
 
 
 def models_finish(chk, handle):
@@ -179,8 +179,10 @@ def project(tr):
                 ev("geval", g=g, t=e["t"])
         elif k == "fn" and g == root and e.get("w") == 1 and e.get("id") == KEY_ID:
             ev("key", t=e["t"], v=e["out"])
-        elif k == "fn" and g == root and e.get("w") == 1 and e.get("id") == HELD_ID:
-            ev("held", t=e["t"])
+        elif k == "fn" and g == root and e.get("w") == 1 and e.get("id") in (HELD_ID, HELD2_ID):
+            ev("held", t=e["t"], v=1 if e["id"] == HELD_ID else 2)
+        elif k == "req" and g in kids:
+            ev("req", g=g, t=e["at"])
         elif k == "eval":
             if g == root and e["n"] == swn:
                 ev("sw", t=e["t"])
@@ -246,7 +248,7 @@ def corruptions(item):
         # the new instance is not evaluated in the cycle of its creation
         g = ev[i]["g"]
         end = next(k for k in range(i, len(ev)) if ev[k]["e"] == "swd")
-        if any(e["e"] == "neval" and e["g"] == g for e in ev[i:end]) and any(e["e"] == "held" for e in ev[:i]):
+        if any(e["e"] == "neval" and e["g"] == g for e in ev[i:end]) and any(e["e"] == "held" and e["v"] == 1 for e in ev[:i]):
             mk("not-evaluated-when-created", "C12.new_branch_instance_not_evaluated_in_the_cycle_it_was_created",
                ev[:i] + [e for e in ev[i:end] if e["e"] not in ("neval", "geval")] + ev[end:])
     return out
@@ -290,9 +292,10 @@ def run(chk, rng, nscn=None, with_models=True):
     base = next((it for it in items if sum(1 for e in it["ev"] if e["e"] == "gstart") >= 2 and
                  any(e["e"] == "neval" for e in it["ev"]) and it["ev"][-1]["v"] == 1 and not it["prog"]["reload"]), None)
     corr = corruptions(base) if base else []
-    verdicts, st, trn = tracecheck.validate("SwitchTrace", "SwitchTrace.cfg", items + [c[2] for c in corr], "c12sw", shards=4, keep=EVENTS)
+    verdicts, st, trn = tracecheck.validate("SwitchTrace", "SwitchTrace.cfg", items + [c[2] for c in corr], "c12sw", shards=2 if quick else 4, keep=EVENTS)
     chk.coverage["states"] += st
     chk.coverage["transitions"] += trn
+    rejected_real = {}
     for it in items:
         acc, why = verdicts[it["id"]]
         if why.startswith("DRIFT"):
@@ -300,11 +303,14 @@ def run(chk, rng, nscn=None, with_models=True):
             if note["drift"] <= 3:
                 print("DRIFT C12 switch_model scenario %s: %s" % (it["id"], why))
         elif why.startswith("C12."):
-            chk.violation("switch-trace:" + why, "SwitchTrace.tla rejects the real trace at projected event %d (%s): %s"
-                          % (acc + 1, json.dumps(it["ev"][acc]) if acc < len(it["ev"]) else "end", why),
-                          "# C12 switch_ instance discipline: %s\n%s\n" % (why, scns[it["id"]]))
+            rejected_real.setdefault(why, []).append((it, acc))
         elif why:
             raise hg.MachineryError("SwitchTrace verdict %r for scenario %s\n%s" % (why, it["id"], scns[it["id"]]))
+    for why, hits in sorted(rejected_real.items()):      # one report per clause: the shortest scenario that shows it
+        it, acc = min(hits, key=lambda h: len(scns[h[0]["id"]]))
+        chk.violation("switch-trace:" + why, "SwitchTrace.tla rejects the real trace of %d scenario(s); this one at projected event %d (%s): %s"
+                      % (len(hits), acc, json.dumps(it["ev"][acc - 1]) if 0 < acc <= len(it["ev"]) else "end", why),
+                      "# C12 switch_ instance discipline: %s\n%s\n" % (why, scns[it["id"]]))
     if base and verdicts[base["id"]][1] == "":
         rejected = {}
         for name, clause, it in corr:
